@@ -149,8 +149,11 @@ def small_world(lim, rng, n_triples, n_quads):
         yield [rng.choice(opts) for _ in range(rng.choice((4, 4, 5)))]
 
 
-def construct(lim, t, zero=False):
+def construct(lim, t, zero=False, fine=0):
     """Best-effort vector putting clause k at limit+t[k] and every other clause well inside.
+
+    ``fine`` > 0 scales the ratio clauses: the compressed sizes grow by that factor, so "limit + 1" in the numerator is a quotient that
+    exceeds the limit by about 1 / fine only (a comparison made on a rounded or truncated quotient decides these differently).
 
     Returns (file entries [(f, c)], number of neutral (0,0) filler entries) or None when impossible.  The
     result is classified afterwards by ``margins``; a wrong construction costs coverage, never soundness."""
@@ -160,7 +163,7 @@ def construct(lim, t, zero=False):
     if zero:
         fixed.append((1, 0))
     if "eratio" in t:
-        m = max(1, min(7, (S - 2) // pe))
+        m = max(1, min(fine or 7, (S - 2) // pe))
         if pe * m + t["eratio"] < 1:
             m += 1
         fixed.append((pe * m + t["eratio"], qe * m))
@@ -190,6 +193,8 @@ def construct(lim, t, zero=False):
             bump = (-(fsum - d)) % pr
             if fsum - d + bump < pr:
                 bump += pr
+            if fine and adj[-1] + bump + pr * (fine - 1) <= S - 2 and fsum + bump + pr * (fine - 1) <= T - 2:
+                bump += pr * (fine - 1)
             adj[-1] += bump
             fsum += bump
             cmin[-1] = adj[-1] * qe // pe + 1
@@ -237,9 +242,14 @@ def constructive(lim, rng, light_big=True):
         for da in (-1, 0, 1):
             for db in (-1, 0, 1):
                 targets.append(({a: da, b: db}, False))
+    targets = [(t, z, 0) for t, z in targets]
+    for fine in (30, 1000, 10 ** 5):          # quotients within 1/30 .. 1/100000 of the ratio limits
+        for da in (-1, 0, 1):
+            targets += [({"eratio": da}, False, fine), ({"tratio": da}, False, fine)]
+            targets += [({"eratio": da, "tratio": db}, False, fine) for db in (-1, 1)]
     wild = [(S + 1, 0, 1), (T + 1, 1, 1), (0, 0, 1)]
-    for idx, (t, zero) in enumerate(targets):
-        built = construct(lim, t, zero)
+    for idx, (t, zero, fine) in enumerate(targets):
+        built = construct(lim, t, zero, fine)
         if built is None:
             continue
         files, fillers = built
@@ -604,6 +614,16 @@ def eval_lattice(run, case, obs, cells):
         run.case(sig, sample={"limits": lim, "entries_f_c_dir_count": runs[:6], "spec_rejects": sorted(ref), "stub": stub,
                               "forged_zip": real, "pos": [p0, p1]} if (run.evaluations % 4001 == 17) else None)
         run.count("spec_reject" if ref == {True} else "spec_accept" if ref == {False} else "spec_either")
+        if ref == {True} and not zero and m["n"] <= 0 and m["single"] <= 0 and m["total"] <= 0:
+            RTf, REf = Fraction(lim[3]), Fraction(lim[4])
+            fl = [(f, c) for f, c, d in entries if not d and c > 0]
+            ex_e = max((Fraction(f, c) - REf for f, c in fl), default=Fraction(-1))
+            tc = sum(c for _, c, d in entries if not d)
+            ex_t = Fraction(sum(f for f, _, d in entries if not d), tc) - RTf if tc else Fraction(-1)
+            if 0 < ex_e < Fraction(1, 20) and ex_t <= 0:
+                run.count("spec_rejects_only_by_entry_ratio_excess_below_0.05")
+            if 0 < ex_t < Fraction(1, 20) and ex_e <= 0:
+                run.count("spec_rejects_only_by_total_ratio_excess_below_0.05")
 
 
 def eval_extract(run, case, obs, per):
@@ -741,7 +761,7 @@ def extract_cases(run):
                 for nm in ("single", "total", "eratio", "tratio", "zero"):
                     vs.append({"name": nm, "d": rng.randrange(2, 10 ** 6), "front": rng.randrange(2)})
                     vs.append({"name": nm, "d": -1, "front": rng.randrange(2)})
-                vs += [dict(v, front=rng.randrange(2)) for v in VARIANTS_ATTR]
+                vs += [dict(v, front=rng.randrange(2)) for v in rng.sample(VARIANTS_ATTR, 16)]      # clause x attribute word: a sample per fixture, the cross product over all fixtures
             for v in vs:
                 cases.append({"kind": "extract", "ext": ext, "fixture": fxt, "variant": v})
         for fxt in heavy:
@@ -794,7 +814,8 @@ def main(run):
     run.require("pairwise_boundary_cells_reached", len(pair_cells), 80)
     run.require("single_boundary_cells_reached", len({c for c in cells if len(c) == 2}), 15)
     run.require("decisions_compared", run.counters.get("decisions_compared", 0), run.n(20000, 150000))
-    for k, lo in (("decisions_compared_with_nondefault_file_attributes", run.n(8000, 60000)), ("spec_rejects_although_file_entries_carry_a_directory_attribute", run.n(1500, 10000))):
+    for k, lo in (("spec_rejects_only_by_entry_ratio_excess_below_0.05", run.n(15, 100)), ("spec_rejects_only_by_total_ratio_excess_below_0.05", run.n(15, 100)),
+                  ("decisions_compared_with_nondefault_file_attributes", run.n(8000, 60000)), ("spec_rejects_although_file_entries_carry_a_directory_attribute", run.n(1500, 10000))):
         run.require(k, run.counters.get(k, 0), lo)
     for k in ("accept_from_zero", "accept_from_nonzero", "reject_from_zero", "reject_from_nonzero", "error_from_nonzero"):
         run.require("position_checked_on_" + k, run.counters.get("position_checked_on_" + k, 0), 4)
